@@ -210,7 +210,7 @@ Section Equiv.
   Qed.
 
   (** the SG_ line: multiplexer indicator (tok.txt[0], tok.txt[1:], strconv.Atoi, uint64(i)) included *)
-  Lemma SignalDef_parseFrom_eq' : forall st,
+  Lemma SignalDef_parseFrom_core_eq : forall st,
     bind (SignalDef_parseFrom ilh idh F SignalDef_zero) (fun d => ret (SignalDef_to d)) st = parse_signal ilh idh F st.
   Proof.
     intros. unfold SignalDef_parseFrom, parse_signal, comma_idents. norm. pt_records. steps.
@@ -223,7 +223,7 @@ Section Equiv.
     run_as SignalDef_to_def (SignalDef_parseFrom ilh idh F SignalDef_zero) st
     = bind (parse_signal ilh idh F) (fun s => ret (DSignal s)) st.   (* the SG_ arm of Parser.parse_def_with *)
   Proof.
-    intros. unfold run_as, bind. rewrite <- SignalDef_parseFrom_eq'. unfold bind.
+    intros. unfold run_as, bind. rewrite <- SignalDef_parseFrom_core_eq. unfold bind.
     destruct (SignalDef_parseFrom ilh idh F SignalDef_zero st); reflexivity.
   Qed.
 
